@@ -256,9 +256,13 @@ class SchedulingSolver(BaseModelWithJson):
                     )
                     total_work_for_all_resources.append(work_contribution)
                 if total_work_for_all_resources:
-                    self.append_z3_assertion(
+                    work_is_done = (
                         z3.Sum(total_work_for_all_resources) >= task.work_amount
                     )
+                    if task.optional:
+                        # no work is expected from a task that is not scheduled
+                        work_is_done = z3.Implies(task._scheduled, work_is_done)
+                    self.append_z3_assertion(work_is_done)
 
         # process buffers
         for buffer in self.problem.buffers:
